@@ -23,7 +23,8 @@ import time
 ROOT = os.path.dirname(os.path.abspath(__file__))
 REPO = os.environ.get("VERIF_REPO", "/repo")
 BUILD = os.environ.get("VERIF_BUILD", os.path.join(ROOT, "build"))
-OUT = os.path.join(ROOT, "out")
+OUT = os.environ.get("VERIF_OUT", os.path.join(ROOT, "out"))
+EVIDENCE = os.environ.get("VERIF_EVIDENCE", os.path.join(ROOT, "evidence"))
 SIM = os.path.join(ROOT, "sim")
 CONDA_LIB = "/root/miniconda/lib"
 NCPU = os.cpu_count() or 4
@@ -265,6 +266,15 @@ def batches_for(prop, tier):
             Batch("import", "asan", 160 * (24 if q else 400), {"sweep": 1}, "import/single-fault-sweep"),
             Batch("import", "asan", 3000 if q else 120000, {}, "import/seeded-multi-fault"),
         ]
+    if prop == "C09":
+        return [
+            Batch("history", "asan", 1106 * (2 if q else 12), {"table": 1}, "history/entry-point-x-badness-table"),
+            Batch("history", "asan", 5000 if q else 400000, {}, "history/seeded-histories"),
+        ]
+    if prop == "C11":
+        return [
+            Batch("history", "asan", 4000 if q else 200000, {"clones": 1, "services": 0}, "history/clone-then-mutate"),
+        ]
     if prop == "C12":
         return [
             Batch("purity", "layout", 700 if q else 20000, {}, "purity/interleaved-clients+layout-twin+isolation"),
@@ -289,6 +299,18 @@ def batches_for(prop, tier):
 LEVELS = {"C07": "fault_enumeration"}
 
 RULES = {
+    "C09": "one case = one simulated run: a universe of 1-2 models, 2-5 components, 2-5 variables, 1-3 units, 1-3 resets, 0-2 import sources built through the API "
+           "(optionally with structurally identical siblings and parentless entities), then 10-60 steps drawn from every public mutator and query of the object model "
+           "(add/remove/take/replace/contains by index, name and pointer, removeAll*, moves, self/ancestor insertion, equivalences, attribute setters, clone, DROP = the simulator "
+           "releases its strong reference) and from 94 service entry points (Annotator, Importer, Analyser, AnalyserExternalVariable, AnalyserModel, Validator, Printer, Generator, "
+           "model/component/units queries), each argument slot optionally replaced by a bad value {null, never added, owner destroyed, index == count, index == SIZE_MAX, unknown "
+           "name, entity of another model}. Table batch: run i exercises (entry point, slot) x badness kind pair i once. Oracle: per-operation specification on an identity-keyed "
+           "snapshot (set of permitted after-states, liveness closure over strong references after DROP) plus global ownership invariants after every step, under ASan/UBSan. "
+           "distinct = distinct event-log fingerprints; non-trivial = at least one specification comparison or bad-argument check was made.",
+    "C11": "one case = one simulated run of the history engine with clones enabled: an entity reached by an arbitrary prior history is cloned (model, component, units, variable, "
+           "reset); at the clone step the copy's canonical dump, equals() in both directions, parent() and object identity of everything reachable (no object shared with the "
+           "original, import sources included) are checked, every entity of the copy becomes a tracked handle, and the remaining steps mutate or DROP either side while the frame "
+           "condition of every step asserts that the other side's snapshot and attribute digests do not change. distinct / non-trivial as for C09.",
     "C12": "one case = one simulated run: 2-4 client tasks whose scripts (parse / API-build / print / validate / analyse with external variables / generate C or Python / "
            "resolve / flatten / clone / equals over documents of the repository's tests/resources corpus, <= 24 kB) are interleaved by the seeded scheduler, on fresh and on "
            "reused service instances, under a seeded heap layout. Each run is preceded by auxiliary runs in fresh processes: the same plan under another allocator policy "
@@ -319,6 +341,12 @@ RULES = {
 }
 
 ASSUMPTIONS = {
+    "C09": ["adding an entity to the container that already holds it is never generated (excluded by the property)",
+            "'structurally equal child' includes any child that the library's own equals() takes for equal to the argument in either direction (Component::equals() is not symmetric and a test pins that; the equality relation itself is C10, not applicable)",
+            "generated equivalences never put two variables of one component into one equivalence class",
+            "strong references assumed for the liveness closure: container -> children, Variable -> Units, Reset -> variable/test variable, Component/Units -> ImportSource; weak: parent, equivalences, ImportSource -> model"],
+    "C11": ["equivalences to variables outside the cloned object and the linked/unlinked state of variable units are excluded from the dump comparison",
+            "reset variable references are compared by variable name (what a serialisation holds)"],
     "C12": ["documented state that is part of a call's identity: parser/importer strict flag, importer library (keys and model contents), import links of the model, "
             "analyser external variables (set by the step itself), generator profile and model",
             "libxml2's keep-blanks default is read through its public accessor only to label events (classification of the listed keep-blanks finding), never to decide a verdict",
@@ -361,6 +389,28 @@ def check(prop, tier, seed):
         else:
             log("KNOWN-FINDING-GONE: property={} {} (replay no longer fails in the same way)".format(prop, f["description"]))
             known_status.append({"id": f.get("id"), "still_fails": False})
+    # 1b. replay every recorded replay file of a defect that has been repaired: a repaired defect that comes back is a violation
+    listed = {os.path.normpath(os.path.join(ROOT, f["replay"])) for f in known.get("findings", [])}
+    all_sigs = {s for f in known.get("findings", []) for s in f.get("signatures", [])}
+    regressions = []
+    replayed = 0
+    import glob
+    for path in sorted(glob.glob(os.path.join(ROOT, "findings", "**", "*.json"), recursive=True)):
+        if os.path.normpath(path) in listed:
+            continue
+        try:
+            rep = json.load(open(path))
+        except Exception:
+            continue
+        if rep.get("property") != prop:
+            continue
+        rep2, info, same, exact = replay_file(binaries, path)
+        replayed += 1
+        if info.get("violation") and info.get("property") == prop and info.get("signature") not in all_sigs:
+            regressions.append({"run": -1, "property": prop, "class": info.get("class"), "signature": info.get("signature"), "replay": path,
+                                "original_steps": len(rep.get("plan", [])), "minimised_steps": len(rep.get("plan", [])), "shrink_runs": 0,
+                                "detail": "a recorded, repaired defect fails again: " + info.get("detail", "")})
+    log("replayed {} recorded replay files of repaired defects: {} fail again".format(replayed, len(regressions)))
     sigs = sorted(s for f in known.get("findings", []) for s in f.get("signatures", []))
     known_file = os.path.join(outdir, "known.sigs")
     open(known_file, "w").write("\n".join(sigs) + ("\n" if sigs else ""))
@@ -373,7 +423,7 @@ def check(prop, tier, seed):
             b.label, r["runs"], len(set(r["fps"].values())), len(r["violations"]) + r["dup_violations"], sum(r["known_hits"].values()), r["wall"]))
     # 3. verdict
     harness = [h for r in results for h in r["harness"]]
-    violations = [v for r in results for v in r["violations"]]
+    violations = regressions + [v for r in results for v in r["violations"]]
     mine = [v for v in violations if v["property"] == prop]
     others = [v for v in violations if v["property"] != prop]
     for v in mine:
@@ -389,13 +439,13 @@ def check(prop, tier, seed):
         for h in harness[:10]:
             log("HARNESS-ERROR: " + h)
         rc = 2
-    write_evidence(prop, tier, seed, results, known_status, violations, time.time() - t0)
+    write_evidence(prop, tier, seed, results, known_status, violations, time.time() - t0, replayed)
     log("{} {} tier={} seed={} runs={} wall={:.1f}s".format("OK" if rc == 0 else ("VIOLATIONS" if rc == 1 else "HARNESS-ERROR"), prop, tier, seed, sum(r["runs"] for r in results), time.time() - t0))
     return rc
 
 
-def write_evidence(prop, tier, seed, results, known_status, violations, wall):
-    os.makedirs(os.path.join(ROOT, "evidence"), exist_ok=True)
+def write_evidence(prop, tier, seed, results, known_status, violations, wall, replayed=0):
+    os.makedirs(EVIDENCE, exist_ok=True)
     runs = sum(r["runs"] for r in results)
     nontrivial = set()
     allfps = set()
@@ -435,6 +485,7 @@ def write_evidence(prop, tier, seed, results, known_status, violations, wall):
             "probes": probes,
             "batches": per_batch,
             "known_findings": known_status,
+            "recorded_replays_of_repaired_defects_rerun": replayed,
             "real_components": ["libcellml (all of it, built from /repo's working tree with -DLIBCELLML_VERIF)", "libxml2 2.13.9", "zlib"],
             "stubbed_components": ["file layer under Importer::fetchModel (VFS, hook H1)", "global C++ allocator (layout flavour only)"],
             "exhaustive": False,
@@ -443,7 +494,7 @@ def write_evidence(prop, tier, seed, results, known_status, violations, wall):
         "wall_s": round(wall, 2),
         "violations": len(violations),
     }
-    with open(os.path.join(ROOT, "evidence", prop + ".json"), "w") as f:
+    with open(os.path.join(EVIDENCE, prop + ".json"), "w") as f:
         json.dump(ev, f, indent=1, sort_keys=False)
         f.write("\n")
 
